@@ -68,6 +68,7 @@ pub struct Checks {
     pub c06: bool,
     pub c07: bool,
     pub c10: bool,
+    pub c11: bool,
     pub c15: bool,
     pub twin: bool,
     pub drain: bool,
@@ -1150,6 +1151,14 @@ impl Subject for LevelSubject {
                         e.res.describe(), e.post.describe(), e.drain.as_ref().map(|d| d.describe()),
                         t.res.describe(), t.post.describe(), t.drain.as_ref().map(|d| d.describe())));
                 }
+            }
+            if ck.c11 {
+                let c = crate::c11::check_state(self, rcd, hist, &op, &e);
+                out.extra_exec += c.extra;
+                for m in c.violations {
+                    vio(&mut out, m);
+                }
+                out.known.extend(c.known);
             }
             if ck.c10 {
                 let x = self.exec(rcd, hist, &op, 0, false, true);
